@@ -56,6 +56,11 @@ def run_op(op):
             # header line 2: IIPPPPPPPPMMDDYYHHmm... - the timestamp is columns 11-20
             lines[1] = re.sub(r"^(.{10})\d{10}", r"\1##########", lines[1], count=1)
             return "\n".join(lines)
+        if kind == "write_calc":
+            text = graph_to_molfile(graph_from_molfile_text(op[1]), calc_coordinates=True)
+            lines = text.split("\n")
+            lines[1] = re.sub(r"^(.{10})\d{10}", r"\1##########", lines[1], count=1)
+            return "\n".join(lines)
         if kind == "permute":
             return graph_result(permute_molecule(graph_from_molfile_text(op[1]), random_seed=op[2]))
         if kind == "random":
